@@ -448,7 +448,7 @@ def crashLine (args0 impl : List String) : String :=
   -- `@old` / `@bin`: age and spelling of the file name; the protocol does not depend on either
   let mods := args0.takeWhile (fun t => t.startsWith "@")
   let args := args0.dropWhile (fun t => t.startsWith "@")
-  if !(mods.all (fun t => t == "@old" || t == "@bin")) then "bad-op | |" else
+  if !(mods.all (fun t => t == "@old" || t == "@bin" || t == "@uid")) then "bad-op | |" else
   let parsed : Option (Crash.Prior × List String) := match args with
     | "missing" :: r => some (.missing, r) | "empty" :: r => some (.empty, r) | "garbage" :: r => some (.garbage, r)
     | "wiped" :: r => some (.wiped, r)
@@ -485,6 +485,18 @@ def crashLine (args0 impl : List String) : String :=
       let tags := (if p.file.usable then ["priorUsable"] else ["priorUnusable"]) ++
         (if m.ev != "end" then ["crash"] else ["complete"]) ++ (if m.ev.startsWith "wipe" then ["crashInWipe"] else []) ++
         (if mods.contains "@old" then ["oldFile"] else []) ++ (if mods.contains "@bin" then ["binaryName"] else [])
+      -- `@uid`: the restart happens under another user (uid 65534), which owns the directory but not the file the first
+      -- (root) incarnation left: it may read the file but not write it. If a file is there, the restart is REFUSED
+      -- (`open(O_RDWR)` / `File::create` fail with EACCES) and nothing may change: same inode, same length, attached
+      -- and fresh clients obtain what they obtained before (C04 (c): never emptied or re-created).
+      let f1 := (Crash.runUntil p.file (Crash.recCells k1) k).1
+      if mods.contains "@uid" && f1.present then
+        let freshTxt := if Crash.openText f1 == "ok" then Crash.cellsText (({} : Crash.ReaderA).snap f1).cache else Crash.openText f1
+        let mu : Crash.Observed := { m with inodeSame := true, len2 := f1.len, fresh := freshTxt, att2 := m.att1 }
+        let mtxt := (mu.text.replace "; restarted inode_same" "; restarted-refused inode_same")
+        let same := String.intercalate " " impl == mtxt
+        s!"{mtxt} | {verdict "C04" true same} C16:na C03:na | {String.intercalate "," (tags ++ ["otherUid"])}"
+      else
       s!"{m.text} | {v} | {String.intercalate "," tags}"
     | _, _, _ => "bad-op | |"
   | _ => "bad-op | |"
